@@ -226,6 +226,68 @@ pub fn eval_c07_with(st: &State, max_n: usize) -> Eval {
                 if integ.cells_iter().count() != nsel {
                     e.issue("cells_iter-count", &case, format!("cells_iter yields {} cells, {} selected", integ.cells_iter().count(), nsel), rp());
                 }
+                // the same restriction through the type-state conversions of the integrator (3D): with_faces keeps
+                // every slot (None <=> unselected, cell i at index i), and so does discarding the faces again
+                if st.dim == 3 {
+                    match guarded(|| integ.clone().with_faces()) {
+                        Err(p) => panic_issue(&mut e, check, st, &case, &extra, &p, "VoronoiIntegrator::with_faces(mask)"),
+                        Ok(wf) => {
+                            e.impl_runs += 1;
+                            for i in 0..n {
+                                match guarded(|| wf.get_cell_at(i).map(|c| (c.idx, bits_eq(c.loc, st.gen_loc(i)), c.vertices.len()))) {
+                                    Err(p) => e.issue("with_faces:get_cell_at-panics", &case, format!("cell {}: {}", i, p.msg), rp()),
+                                    Ok(got) => match (got, mask[i]) {
+                                        (Some((idx, loc_ok, nv)), true) => {
+                                            let nv0 = integ.get_cell_at(i).map_or(usize::MAX, |c| c.vertices.len());
+                                            if idx != i || !loc_ok || nv != nv0 {
+                                                e.issue("with_faces:cell-at-wrong-index", &case, format!("get_cell_at({}) after with_faces has idx {} ({} vertices, {} before)", i, idx, nv, nv0), rp());
+                                            }
+                                        }
+                                        (None, false) => {}
+                                        (a, b) => e.issue("with_faces:get_cell_at-vs-mask", &case, format!("cell {}: get_cell_at is_some = {} but mask = {}", i, a.is_some(), b), rp()),
+                                    },
+                                }
+                            }
+                            if wf.cells_iter().count() != nsel {
+                                e.issue("with_faces:cells_iter-count", &case, format!("cells_iter yields {} cells, {} selected", wf.cells_iter().count(), nsel), rp());
+                            }
+                            let vcf = wf.compute_cell_integrals::<VolumeCentroidIntegral>();
+                            let selv: Vec<usize> = (0..n).filter(|&i| mask[i]).collect();
+                            if vcf.len() != selv.len() {
+                                e.issue("with_faces:cell-integral-count", &case, format!("{} integrals for {} selected cells", vcf.len(), selv.len()), rp());
+                            } else if full_vc.len() == n {
+                                for (k, &i) in selv.iter().enumerate() {
+                                    let tolv = 64. * (t.pos * t.l.powi(2) + 1e-12 * full_vc[i].volume.abs());
+                                    if !((vcf[k].volume - full_vc[i].volume).abs() <= tolv) {
+                                        e.issue("with_faces:cell-integral-differs-from-full", &case, format!("selected cell {} (position {}): volume {:e} with faces vs {:e} in the full build", i, k, vcf[k].volume, full_vc[i].volume), rp());
+                                    }
+                                }
+                            }
+                            // converting the with-faces integrator gives the same restriction
+                            match guarded(|| Voronoi::from(&wf)) {
+                                Err(p) => panic_issue(&mut e, check, st, &case, &extra, &p, "Voronoi::from(&with_faces)"),
+                                Ok(vw) => {
+                                    if vw.cells().len() != n {
+                                        e.issue("with_faces:cell-count", &case, format!("{} cells", vw.cells().len()), rp());
+                                    } else {
+                                        for i in 0..n {
+                                            let c = &vw.cells()[i];
+                                            if mask[i] {
+                                                let f = &full.cells()[i];
+                                                let tolv = 64. * (t.pos * t.l.powi(2) + 1e-12 * f.volume().abs());
+                                                if !((c.volume() - f.volume()).abs() <= tolv) || !bits_eq(c.loc(), f.loc()) {
+                                                    e.issue("with_faces:selected-cell-differs-from-full", &case, format!("cell {}: volume {:e} vs full {:e}", i, c.volume(), f.volume()), rp());
+                                                }
+                                            } else if c.volume() != 0. || c.centroid() != DVec3::ZERO {
+                                                e.issue("with_faces:unselected-cell-not-zero", &case, format!("cell {}: volume {:e}", i, c.volume()), rp());
+                                            }
+                                        }
+                                    }
+                                }
+                            }
+                        }
+                    }
+                }
                 let vc = integ.compute_cell_integrals::<VolumeCentroidIntegral>();
                 let sel: Vec<usize> = (0..n).filter(|&i| mask[i]).collect();
                 if vc.len() != sel.len() {
